@@ -463,12 +463,8 @@ func TestCryptoSequences(t *testing.T) {
 	})
 }
 
-// seqGridSizes are the sizes of the deterministic pair grid; seqGridBig are paired with a few partners only (run time).
-var (
-	seqGridSizes       = []int{16, 4096, 8192 - 16, 8192, 8192 + 16, 65536 - 1, 65536, 65536 + 1}
-	seqGridBig         = []int{1 << 20}
-	seqGridBigPartners = []int{16, 8192, 65536, 1 << 20}
-)
+// seqGridSizes are the sizes of the deterministic pair grid; 1 MiB is paired with a few partners only (run time).
+var seqGridSizes = []int{16, 4096, 8192 - 16, 8192, 8192 + 16, 65536 - 1, 65536, 65536 + 1}
 
 func seqGridPairs() [][2]int {
 	var out [][2]int
@@ -477,47 +473,52 @@ func seqGridPairs() [][2]int {
 			out = append(out, [2]int{a, b})
 		}
 	}
-	for _, a := range seqGridBig {
-		for _, b := range seqGridBigPartners {
-			out = append(out, [2]int{a, b})
-			if a != b {
-				out = append(out, [2]int{b, a})
-			}
+	for _, b := range vk.Pick([]int{16, 1 << 20}, []int{16, 8192, 65536, 1 << 20}) {
+		out = append(out, [2]int{1 << 20, b})
+		if b != 1<<20 {
+			out = append(out, [2]int{b, 1 << 20})
 		}
 	}
 	return out
 }
 
 // TestCryptoSizeSequences: for every entry point group and every algorithm (or primitive parameter), every ORDERED
-// pair of sizes of the grid {16, 4 KiB, 8 KiB-16, 8 KiB, 8 KiB+16, 64 KiB-1, 64 KiB, 64 KiB+1} (1 MiB with four
-// partners) as two calls back to back, followed by the first size again: small then large, large then small, equal.
+// pair of sizes of the grid {16, 4 KiB, 8 KiB-16, 8 KiB, 8 KiB+16, 64 KiB-1, 64 KiB, 64 KiB+1} (and 1 MiB with a few
+// partners) as two calls back to back: small then large, large then small, equal. In the quick tier the groups whose
+// calls are slow (AES key wrap: 20 ms per 64 KiB) or whose size handling is a plain length check (RSA, signatures,
+// PKCS#7, ParseKey) take every fourth / fifth pair, rotating with the algorithm so that the group covers the grid.
 func TestCryptoSizeSequences(t *testing.T) {
 	sec := vk.Sec(t.Name())
 	type target struct {
 		op, alg string
-		light   bool // costly per call: a reduced grid in the quick tier
+		stride  int  // quick tier: one pair in stride
+		noMiB   bool // quick tier: without the 1 MiB pairs
 	}
 	var targets []target
 	for _, a := range symAlgs {
-		targets = append(targets, target{op: "sym", alg: a})
+		if strings.HasSuffix(a, "KW") && !strings.Contains(a, "GCM") && !strings.Contains(a, "C20P") {
+			targets = append(targets, target{op: "sym", alg: a, stride: 4, noMiB: true})
+		} else {
+			targets = append(targets, target{op: "sym", alg: a, stride: 1})
+		}
 	}
 	for _, a := range asymEncAlgs {
-		targets = append(targets, target{op: "asym", alg: a, light: true})
+		targets = append(targets, target{op: "asym", alg: a, stride: 5})
 	}
 	for _, a := range sigAlgs {
-		targets = append(targets, target{op: "sig", alg: a, light: true})
+		targets = append(targets, target{op: "sig", alg: a, stride: 5})
 	}
 	for _, p := range seqKWParams {
-		targets = append(targets, target{op: "kw", alg: p})
+		targets = append(targets, target{op: "kw", alg: p, stride: 4, noMiB: true})
 	}
 	for _, p := range []string{"16", "255"} {
-		targets = append(targets, target{op: "pad", alg: p, light: true})
+		targets = append(targets, target{op: "pad", alg: p, stride: 5})
 	}
 	for vi := range cbcVariants {
-		targets = append(targets, target{op: "cbc", alg: fmt.Sprint(vi)})
+		targets = append(targets, target{op: "cbc", alg: fmt.Sprint(vi), stride: 1})
 	}
 	for ci := range keyCTypes[:5] {
-		targets = append(targets, target{op: "key", alg: fmt.Sprint(ci), light: true})
+		targets = append(targets, target{op: "key", alg: fmt.Sprint(ci), stride: 5})
 	}
 	pairs := seqGridPairs()
 	item := 0
@@ -527,14 +528,14 @@ func TestCryptoSizeSequences(t *testing.T) {
 			if !vk.Mine(item) {
 				continue
 			}
-			if tg.light && !vk.Thorough() && pi%5 != ti%5 {
+			if !vk.Thorough() && ((pi+pi/8)%tg.stride != ti%tg.stride || (tg.noMiB && (p[0] >= 1<<20 || p[1] >= 1<<20))) {
 				continue
 			}
 			seed := vk.FP("seqgrid", ti, pi)
 			mk := func(i, size int) seqStep {
 				return seqStep{Op: tg.op, Alg: tg.alg, API: (ti + pi + i) % 2, Size: size, Mode: []int{0, 0, 1, 2, 3, 4, 5}[(pi+i)%7], Kind: 3, Seed: seed + uint64(i)}
 			}
-			c := seqCase{Steps: []seqStep{mk(0, p[0]), mk(1, p[1]), mk(2, p[0])}, Note: fmt.Sprintf("grid %d->%d->%d", p[0], p[1], p[0])}
+			c := seqCase{Steps: []seqStep{mk(0, p[0]), mk(1, p[1])}, Note: fmt.Sprintf("grid %d->%d", p[0], p[1])}
 			settle(t, sec, runSeq(c), c.fp())
 		}
 	}
